@@ -1200,11 +1200,44 @@ Definition parse_config6 (v : ivariant) (restore : bool) (c : config6) (s : mods
 (* colvarmodule::reset(): objects, registries and counters go; the values of the module-level keywords stay *)
 Definition reset6 (s : modst) : modst := mkModst [] [] [] [] [] (q_traj s) (q_restart s) [] false (q_crash s).
 
-Fixpoint run_session6 (v : ivariant) (restore : bool) (cfgs : list (option config6)) (s : modst) : modst :=
-  match cfgs with
+(* script commands `cv bias <name> delete` and `cv colvar <name> delete`.  Deleting a bias releases its variables: one
+   that no other bias uses is switched off (by design: only the REJECTED bias of a configuration must leave them as
+   they were).  Deleting a variable first deletes the biases that use it, last added first, then the variable with
+   the atom groups it had named. *)
+Definition drop_unused (cs : list string) (bs : list (string * string * list string)) (act : list string) : list string :=
+  filter (fun c => negb (existsb (String.eqb c) cs) || existsb (uses_cv c) bs) act.
+
+Definition delete_bias6 (n : string) (s : modst) : modst :=
+  match find (fun b => String.eqb n (fst (fst b))) (q_biases s) with
+  | None => s
+  | Some b =>
+      let bs := filter (fun o => negb (String.eqb n (fst (fst o)))) (q_biases s) in
+      mkModst (q_cvs s) bs (q_reg s) (q_named s) (q_counters s) (q_traj s) (q_restart s) (drop_unused (snd b) bs (q_active s)) (q_err s) (q_crash s)
+  end.
+
+Definition delete_cv6 (c : string) (s : modst) : modst :=
+  if negb (existsb (String.eqb c) (q_cvs s)) then s
+  else
+    let users := map (fun b => fst (fst b)) (filter (uses_cv c) (q_biases s)) in
+    let s1 := fold_left (fun st n => delete_bias6 n st) (rev users) s in
+    mkModst (filter (fun x => negb (String.eqb c x)) (q_cvs s1)) (q_biases s1) (q_reg s1)
+            (filter (fun go => negb (String.eqb c (snd go))) (q_named s1)) (q_counters s1) (q_traj s1) (q_restart s1)
+            (filter (fun x => negb (String.eqb c x)) (q_active s1)) (q_err s1) (q_crash s1).
+
+Inductive op6 := OpCfg (c : config6) | OpReset | OpDelBias (n : string) | OpDelCv (n : string).
+
+Definition run_op6 (v : ivariant) (restore : bool) (o : op6) (s : modst) : modst :=
+  match o with
+  | OpCfg c => parse_config6 v restore c s
+  | OpReset => reset6 s
+  | OpDelBias n => delete_bias6 n s
+  | OpDelCv n => delete_cv6 n s
+  end.
+
+Fixpoint run_session6 (v : ivariant) (restore : bool) (ops : list op6) (s : modst) : modst :=
+  match ops with
   | [] => s
-  | None :: r => run_session6 v restore r (reset6 s)
-  | Some c :: r => run_session6 v restore r (parse_config6 v restore c s)
+  | o :: r => run_session6 v restore r (run_op6 v restore o s)
   end.
 
 (* well-formed state: no NULL in the registry, no crash so far, every named group is owned by a defined variable,
